@@ -1162,7 +1162,24 @@ impl WorldA {
         for (l, d) in cross {
             viols.push((l, "listed-item-ne-point-query".into(), d));
         }
-        // and every current item is listed
+        // and every current item is listed: an allowance record that one listing returns is a current item of the
+        // other listing too (the listings were compared with their tables above)
+        for (o, rows) in owners.iter() {
+            for (sp, amt, _) in rows.iter().take(40) {
+                let there = spenders.get(sp).map(|r| r.iter().any(|x| &x.0 == o)).unwrap_or(false);
+                if !there {
+                    viols.push(("all_spender_allowances".into(), "current-item-not-listed".into(), format!("allowance {} -> {} ({}) is returned by the owner listing but not by the spender listing", o, sp, amt)));
+                }
+            }
+        }
+        for (sp, rows) in spenders.iter() {
+            for (o, amt, _) in rows.iter().take(40) {
+                let there = owners.get(o).map(|r| r.iter().any(|x| &x.0 == sp)).unwrap_or(false);
+                if !there {
+                    viols.push(("all_allowances".into(), "current-item-not-listed".into(), format!("allowance {} -> {} ({}) is returned by the spender listing but not by the owner listing", o, sp, amt)));
+                }
+            }
+        }
         for o in self.users.iter().take(5) {
             for sp in self.users.iter().take(5) {
                 if o == sp {
